@@ -212,6 +212,10 @@ class Prop:
             if want.startswith('ERR') or o == 'SKIP':
                 continue
             known_empty = False
+            if o.startswith(('READERS-DIFFER', 'RESULT-DEPENDS')):
+                ctx.fail('the re-encoded message does not come back the same through every way of reading it',
+                         {'family_op': 'cycle_msg %s %s' % (c, b)}, want[:200], o[:400], {'kind': 'family', 'marker': o.split()[0]})
+                continue
             if o != want:
                 c1, f1 = parse_fields(want)
                 f2 = parse_fields(o)[1] if not o.startswith('ERR') else []
